@@ -423,6 +423,19 @@ class World:
         objs += [("s%d" % sid, r.obj) for sid, r in sorted(self.segs.items())]
         for pid, pr in sorted(self.paths.items()):
             objs.append(("twin(p%d)" % pid, self.twin_path(pr)))
+        for sid, r in sorted(self.segs.items()):
+            # a segment and a fresh segment built from its current defining values must be equal,
+            # both ways, and then (below) hash alike
+            t = self.twin_seg(r)
+            try:
+                ok = (r.obj == t) is True and (t == r.obj) is True and (r.obj != t) is False
+            except Exception:
+                ok = False
+            if not ok:
+                self.violate(idx, "other-query", "eq", {"a": "s%d" % sid, "b": "fresh twin", "a_val": C(r.obj),
+                                                        "b_val": C(t)})
+                return
+            objs.append(("twin(s%d)" % sid, t))
         hs = []
         for name, o in objs:
             try:
@@ -589,7 +602,11 @@ class World:
             return "raised"
         rec = self.adopt_seg(op["id"], oc[1], "reversed", src)
         if rec.kind in ("Q", "C"):
+            # the copy may carry the source's length (computed in the other direction), and through a
+            # second reversed() that value can travel back to the source: both may differ from a
+            # fresh computation in the last bits
             rec.ulp = True
+            src.ulp = True
             rec.group = src.group
             src.group.add(rec.sid)
             rec.tols = src.tols      # shared dict => shared tolerance history
@@ -627,6 +644,7 @@ class World:
                 nrec, srec = self.segs[nsid], self.segs[ssid]
                 if nrec.kind in ("Q", "C") and nrec.origin == "reversed" and nrec is not srec:
                     nrec.ulp = True
+                    srec.ulp = True
                     nrec.group = srec.group
                     srec.group.add(nsid)
                     nrec.tols = srec.tols
@@ -946,7 +964,7 @@ class World:
         if q == "length":
             oc = self.impl(lambda: o.length())
             legit = self._legit_seg_lengths(rec, *DEFAULT_TOL)
-            self._judge_len(idx, q, oc, legit, tolerant)
+            self._judge_len(idx, q, oc, legit, tolerant, self._seg_atol(rec) if tolerant else 0.0)
             if oc[0] != "i":
                 self._note_tol(rec, *DEFAULT_TOL)
         elif q == "length_tol":
@@ -955,7 +973,7 @@ class World:
                 return "skipped"
             oc = self.impl(lambda: o.length(error=e, min_depth=m))
             legit = self._legit_seg_lengths(rec, e, m)
-            self._judge_len(idx, q, oc, legit, tolerant)
+            self._judge_len(idx, q, oc, legit, tolerant, self._seg_atol(rec) if tolerant else 0.0)
             if oc[0] != "i":
                 self._note_tol(rec, e, m)
             if (e, m) != DEFAULT_TOL:
@@ -975,11 +993,11 @@ class World:
             tw = outcome(lambda: self.twin_seg(rec).length(t0, t1))
             if (t0, t1) == (0, 1):
                 legit = self._legit_seg_lengths(rec, *DEFAULT_TOL)
-                self._judge_len(idx, q, oc, legit, tolerant)
+                self._judge_len(idx, q, oc, legit, tolerant, self._seg_atol(rec) if tolerant else 0.0)
                 if oc[0] != "i":
                     self._note_tol(rec, *DEFAULT_TOL)
             else:
-                self.compare(idx, q, oc, tw, tolerant)
+                self.compare(idx, q, oc, tw, tolerant, atol=self._seg_atol(rec) if tolerant else 0.0)
         elif q == "point":
             t = op["t"]
             oc = self.impl(lambda: o.point(t))
@@ -989,6 +1007,15 @@ class World:
             oc = self.impl(lambda: o.bbox())
             tw = outcome(lambda: self.twin_seg(rec).bbox())
             self.compare(idx, q, oc, tw, False)
+        elif q in ("derivative", "unit_tangent"):
+            t = op["t"]
+            oc = self.impl(lambda: getattr(o, q)(t))
+            tw = outcome(lambda: getattr(self.twin_seg(rec), q)(t))
+            self.compare(idx, "point", oc, tw, False)
+        elif q == "poly":
+            oc = self.impl(lambda: [complex(c) for c in o.poly(return_coeffs=True)])
+            tw = outcome(lambda: [complex(c) for c in self.twin_seg(rec).poly(return_coeffs=True)])
+            self.compare(idx, "point", oc, tw, False)
         elif q == "ilength":
             s = op["s"]
             oc = self.impl(lambda: o.ilength(s))
@@ -1018,7 +1045,7 @@ class World:
         entry["out"] = self._render(oc) if oc[0] != "i" else {"interrupted": True}
         return "ok"
 
-    def _judge_len(self, idx, q, oc, legit, tolerant):
+    def _judge_len(self, idx, q, oc, legit, tolerant, atol=0.0):
         if oc[0] == "i":
             return
         for lg in legit:
@@ -1028,7 +1055,7 @@ class World:
                 if oc[1] == lg[1]:
                     return
             elif tolerant:
-                if close_struct(oc[1], lg[1], 1e-9, 0.0):
+                if close_struct(oc[1], lg[1], 1e-9, atol):
                     return
             elif C(oc[1]) == C(lg[1]):
                 return
@@ -1069,7 +1096,7 @@ class World:
                 elif math.isinf(lo) or math.isinf(hi) or lo != lo or hi != hi:
                     ok = False
                 else:
-                    slack = 1e-9 * max(abs(lo), abs(hi)) if tolerant else 0.0
+                    slack = (1e-9 * max(abs(lo), abs(hi)) + self._scale_atol(pr)) if tolerant else 0.0
                     ok = lo - slack <= v <= hi + slack
             except (TypeError, ValueError):
                 ok = False
@@ -1126,7 +1153,7 @@ class World:
                 self._judge_path_len(idx, q, pr, oc, *DEFAULT_TOL, tolerant)
             else:
                 tw = outcome(lambda: T().length(T0, T1))
-                self.compare(idx, q, oc, tw, tolerant)
+                self.compare(idx, q, oc, tw, tolerant, atol=self._scale_atol(pr) if tolerant else 0.0)
             if oc[0] != "i":
                 self._mark_path_tols(pr, *DEFAULT_TOL)
             warmed = True
@@ -1137,10 +1164,12 @@ class World:
             if tolerant and self._near_boundary(pr, Tv):
                 self.probe("inconclusive_boundary_query_on_rounding_tainted_path")
             else:
-                self.compare(idx, q, oc, tw, tolerant)
-            if oc[0] != "i" and Tv not in (0, 1):
+                self.compare(idx, q, oc, tw, tolerant, atol=self._scale_atol(pr) if tolerant else 0.0)
+            if oc[0] != "i":
+                # (marking is a superset: any query that may have asked segments for their default
+                #  length makes the default-tolerance value a legitimate cached answer later)
                 self._mark_path_tols(pr, *DEFAULT_TOL)
-                warmed = True
+                warmed = Tv not in (0, 1)
         elif q == "T2t":
             Tv = op["T"]
             oc = self.impl(lambda: p.T2t(Tv))
@@ -1155,17 +1184,19 @@ class World:
                 except Exception:
                     ok = False
                 if not ok:
-                    self.compare(idx, q, oc, tw, True)
+                    self.compare(idx, q, oc, tw, True, atol=1e-9)
             else:
                 self.compare(idx, q, oc, tw, tolerant)
-            if oc[0] != "i" and Tv not in (0, 1):
+            if oc[0] != "i":
+                # (marking is a superset: any query that may have asked segments for their default
+                #  length makes the default-tolerance value a legitimate cached answer later)
                 self._mark_path_tols(pr, *DEFAULT_TOL)
-                warmed = True
+                warmed = Tv not in (0, 1)
         elif q == "t2T":
             k, t = op["k"], op["t"]
             oc = self.impl(lambda: p.t2T(k, t))
             tw = outcome(lambda: T().t2T(k, t))
-            self.compare(idx, q, oc, tw, tolerant)
+            self.compare(idx, q, oc, tw, tolerant, atol=1e-9 if tolerant else 0.0)
             if oc[0] != "i":
                 self._mark_path_tols(pr, *DEFAULT_TOL)
             warmed = True
@@ -1188,7 +1219,7 @@ class World:
             if tolerant and (self._near_boundary(pr, T0) or self._near_boundary(pr, T1)):
                 self.probe("inconclusive_boundary_query_on_rounding_tainted_path")
             else:
-                self.compare(idx, q, oc, tw, tolerant, rtol=1e-7, atol=0.0)
+                self.compare(idx, q, oc, tw, tolerant, rtol=1e-7, atol=self._scale_atol(pr) if tolerant else 0.0)
             if oc[0] != "i":
                 self._mark_path_tols(pr, *DEFAULT_TOL)
             warmed = True
@@ -1206,6 +1237,19 @@ class World:
             oc = self.impl(lambda: p.d(**kw))
             tw = outcome(lambda: T().d(**kw))
             self.compare(idx, "d_closed" if o[1] else "d", oc, tw, False)
+        elif q in ("derivative", "unit_tangent"):
+            Tv = op["T"]
+            oc = self.impl(lambda: getattr(p, q)(Tv))
+            tw = outcome(lambda: getattr(T(), q)(Tv))
+            if tolerant and self._near_boundary(pr, Tv):
+                self.probe("inconclusive_boundary_query_on_rounding_tainted_path")
+            else:
+                self.compare(idx, "point", oc, tw, tolerant, rtol=1e-7, atol=1e-9 if tolerant else 0.0)
+            if oc[0] != "i":
+                # (marking is a superset: any query that may have asked segments for their default
+                #  length makes the default-tolerance value a legitimate cached answer later)
+                self._mark_path_tols(pr, *DEFAULT_TOL)
+                warmed = Tv not in (0, 1)
         elif q == "iscontinuous":
             oc = self.impl(lambda: p.iscontinuous())
             tw = outcome(lambda: T().iscontinuous())
@@ -1245,6 +1289,20 @@ class World:
             pr.warm = True
         entry["out"] = self._render(oc) if oc[0] != "i" else {"interrupted": True}
         return "ok"
+
+    def _seg_atol(self, rec):
+        """absolute slack for length/coordinate-valued answers of a rounding-tainted object:
+        1e-9 of its size (so that answers that are legitimately ~0 are not compared relatively)"""
+        o = rec.obj
+        try:
+            pts = [o.start, o.end] + ([o.control] if rec.kind == "Q" else []) + \
+                  ([o.control1, o.control2] if rec.kind == "C" else [])
+            return 1e-9 * max(abs(complex(z)) for z in pts)
+        except Exception:
+            return 0.0
+
+    def _scale_atol(self, pr):
+        return max([self._seg_atol(self.segs[sid]) for sid in pr.model] or [0.0])
 
     @staticmethod
     def _near_total(L, s):
@@ -1338,8 +1396,9 @@ PATH_MUT = ["setitem", "setslice", "insert", "append", "extend", "extend_self", 
             "delslice", "pop", "remove", "reverse", "clear", "set_start", "set_end"]
 PATH_Q = ["length", "length_T", "length_tol", "length_fail", "point", "T2t", "t2T", "ilength",
           "cropped", "start", "end", "bbox", "d", "iscontinuous", "isclosed", "len", "repr", "eq",
-          "eq_twin"]
-SEG_Q = ["length", "length_tol", "length_fail", "length_t", "point", "bbox", "ilength", "repr", "eq"]
+          "eq_twin", "derivative", "unit_tangent"]
+SEG_Q = ["length", "length_tol", "length_fail", "length_t", "point", "bbox", "ilength", "repr", "eq",
+         "derivative", "unit_tangent", "poly"]
 CREATE = ["new_seg", "dup_seg", "new_path", "seg_reversed", "seg_copy", "path_reversed", "path_slice",
           "path_subpaths", "path_reparse"]
 
@@ -1488,6 +1547,22 @@ class Gen:
             o = self.new_seg_op(r, start=start)
             segs.append(o)
             ops.append(o)
+        if segs and r.random() < 0.35:
+            # a closing line from the end of the last segment to the start of the first (closed paths:
+            # isclosed(), d(use_closed_attrib=True), the parser's Z and its _closed flag)
+            def endp(o):
+                return cz(o["arc"]["end"]) if o["kind"] == "A" else cz(o["pts"][-1])
+
+            def startp(o):
+                return cz(o["arc"]["start"]) if o["kind"] == "A" else cz(o["pts"][0])
+            a0, b0 = endp(segs[-1]), startp(segs[0])
+            if a0 != b0:
+                o = {"op": "new_seg", "id": self.next_sid, "kind": "L", "pts": [zc(a0), zc(b0)]}
+                self.next_sid += 1
+                segs.append(o)
+                ops.append(o)
+            ops.append({"op": "new_path", "id": self.next_pid, "segs": [s["id"] for s in segs]})
+            self.next_pid += 1
         for k in range(self.npaths):
             n = r.randint(0 if r.random() < 0.1 else 1, min(4, len(segs)))
             a = r.randint(0, len(segs) - n)
@@ -1542,7 +1617,8 @@ class Gen:
             q = r.choice(self.q_on)
             op = self.pq_op(q, a, w, pr)
             self.last = ("warm" if q in ("length", "length_tol", "length_T", "t2T", "T2t", "point",
-                                          "ilength", "cropped", "length_fail") else "q", pid)
+                                          "ilength", "cropped", "length_fail", "derivative",
+                                          "unit_tangent") else "q", pid)
         elif cat == "sq" and sids:
             q = r.choice(self.sq_on)
             op = self.sq_op(q, a, w, a.choice(sids))
@@ -1563,7 +1639,7 @@ class Gen:
         # attach an interrupt to integrator-using queries
         if self.interrupting and op.get("op") == "q" and op["q"] in (
                 "length", "length_tol", "length_T", "point", "T2t", "t2T", "ilength", "cropped",
-                "length_t") and self.st["faults"].random() < 0.3:
+                "length_t", "derivative", "unit_tangent") and self.st["faults"].random() < 0.3:
             f = self.st["faults"]
             op["fault"] = {"kind": "interrupt", "at": f.choice([1, 1, 2, 3, 5, 8, 13, 21, 34, 60])}
         return op
@@ -1609,7 +1685,7 @@ class Gen:
         elif q == "length_fail":
             if self.quad and a.random() < 0.7:
                 op["q"] = "length"
-        elif q in ("point", "T2t"):
+        elif q in ("point", "T2t", "derivative", "unit_tangent"):
             op["T"] = self.Tval(a, w, pr)
         elif q == "t2T":
             op["k"], op["t"] = self.idx(a, n), a.choice([0, 1, 0.5, a.random()])
@@ -1647,8 +1723,11 @@ class Gen:
             op["t0"], op["t1"] = t0, a.choice([1, 1, 0.75, a.random()])
             if a.random() < 0.2:
                 op["t0"], op["t1"] = 1, 0   # the pair QuadraticBezier's length cache is keyed on
-        elif q == "point":
+        elif q in ("point", "derivative", "unit_tangent"):
             op["t"] = a.choice([0, 1, 0.5, a.random()])
+        elif q == "poly":
+            if rec.kind == "A":
+                op["q"] = "bbox"
         elif q == "ilength":
             if not self.quad and rec.kind in ("C", "A"):
                 op["q"] = "length"
